@@ -101,9 +101,20 @@ def run(tier, seed, replay):
         for k_ in ("cases", "ops", "validated"):
             stats[k_] += qstats[k_]
         stats["distinct"] |= qstats["distinct"]
-        # a kept entry the exact decision drops is a stale servable entry: an oracle failure, not only a mismatch
-        for c in corr.run_cases("qcache", qcases) if False else []:
-            pass
+        # a kept entry the exact decision drops is a stale servable entry: an oracle failure, not only a mismatch.  The exact
+        # decision (`mustDrop`, evaluated by the model on distances the harness computed in f64, amb=0: not within rounding
+        # distance of the boundary) is the specification C07_kept_entry_is_unaffected is about.
+        for f in [x for x in findings if x["kind"] == "mismatch" and x["engine"] == "qcache"]:
+            c, j = f["case"], f["idx"]
+            a, im, mo = c["ann"][j], c["impl"][j], c["model"][j]
+            mm = re.fullmatch(r"(\d+) amb=0", mo)
+            if a.startswith("inv_insert") and mm and im.isdigit() and int(im) < int(mm.group(1)):
+                findings.append({"kind": "oracle", "engine": "qcache", "case": c, "idx": j,
+                                 "msg": "`invalidate_for_insert` removed %s cached entr%s where the exact boundary decision removes %s: an entry whose "
+                                        "result omits a vector strictly inside its boundary stays servable (%s)" % (
+                                            im, "y" if im == "1" else "ies", mm.group(1), a[:200]),
+                                 "sig": {"engine": "qcache", "kind": "c07-stale-entry-kept"}, "pred": None})
+                break
     # 2. engine level
     tcases = [ops] if eng == "tiered" else ([] if replay else [])
     corpus_conc = []
